@@ -284,6 +284,11 @@ pub fn finish(f: Finish, acc: Acc) -> i32 {
         }
     }
 
+    // many cases that could not be judged (watchdog, spawn failure) mean the run says little: not "held"
+    if acc.inconclusive > 20 && acc.inconclusive as i64 > acc.evals.max(0) as i64 / 100 {
+        inconclusive_reasons.push(format!("{} of {} cases could not be judged (watchdog timeouts, spawn errors, unusable baselines)", acc.inconclusive, acc.evals.max(0)));
+    }
+
     let mut coverage = Map::new();
     coverage.insert("evaluations".into(), json!(acc.evals.max(0)));
     coverage.insert("distinct_nontrivial".into(), json!(distinct));
